@@ -37,6 +37,68 @@ def read_mutants(prop):
     return out
 
 
+def _qual_nodes(text):
+    """[(qualified name, first line incl. decorators, last line)] of every function / method (nested ones included)"""
+    import ast
+    out = []
+
+    def walk(node, prefix):
+        for ch in ast.iter_child_nodes(node):
+            if isinstance(ch, (ast.FunctionDef, ast.AsyncFunctionDef, ast.ClassDef)):
+                qn = f'{prefix}.{ch.name}' if prefix else ch.name
+                lo = min([ch.lineno] + [x.lineno for x in ch.decorator_list])
+                if not isinstance(ch, ast.ClassDef):
+                    out.append((qn, lo, ch.end_lineno))
+                walk(ch, qn)
+    walk(ast.parse(text), '')
+    return out
+
+
+def enclosing(text, line):
+    """qualified name of the innermost function holding `line` ('<module>' outside any function)"""
+    best = None
+    for qn, lo, hi in _qual_nodes(text):
+        if lo <= line <= hi and (best is None or hi - lo < best[2] - best[1]):
+            best = (qn, lo, hi)
+    return best[0] if best else '<module>'
+
+
+def func_lines(text, qn):
+    """line numbers of the function(s) of that qualified name (a property getter and its setter share one)"""
+    if qn == '<module>':
+        return list(range(1, len(text.splitlines()) + 1))
+    out = []
+    for q, lo, hi in _qual_nodes(text):
+        if q == qn:
+            out.extend(range(lo, hi + 1))
+    return sorted(set(out))
+
+
+def resolve_anchor(text, spec):
+    """'AT <qualname> :: <line text>[ #k][ ;; <last line text>[ #k]] :: <sed cmd>' -> '<N>[,<M>]<cmd>' in `text`, or None"""
+    import re as _re
+    try:
+        _, rest = spec.split('AT ', 1)
+        qn, anchors, cmd = rest.split(' :: ', 2)
+    except ValueError:
+        return None
+    span = func_lines(text, qn.strip())
+    if not span:
+        return None
+    lines = text.splitlines()
+    nums = []
+    for a in anchors.split(' ;; '):
+        k = 0
+        mk = _re.search(r' #(\d+)$', a)
+        if mk:
+            k, a = int(mk.group(1)), a[:mk.start()]
+        same = [i for i in span if lines[i - 1].strip() == a.strip()]
+        if len(same) <= k:
+            return None
+        nums.append(same[k])
+    return ','.join(str(n) for n in nums) + cmd
+
+
 def _run_one(m):
     d = tempfile.mkdtemp(prefix='pyvc_mut_')
     try:
@@ -44,7 +106,12 @@ def _run_one(m):
                         ignore=shutil.ignore_patterns('__pycache__', 'tests', 'web', 'client', 'ui', 'test'))
         target_file = os.path.join(d, 'supvisors', m['file'])
         before = open(target_file).read()
-        subprocess.run(['sed', '-i', m['sed'], target_file], check=True)
+        sed = m['sed']
+        if sed.startswith('AT '):
+            sed = resolve_anchor(before, sed)
+            if sed is None:
+                return dict(m, status='not-applied', detail='anchor (function / line text) not found in the current source')
+        subprocess.run(['sed', '-i', sed, target_file], check=True)
         if open(target_file).read() == before:
             return dict(m, status='not-applied', detail='sed expression changed nothing (source moved?)')
         env = dict(os.environ, VERIF_REPO=d)
@@ -53,6 +120,11 @@ def _run_one(m):
                 "w = World()\n"
                 "out = []\n"
                 "for t in %r:\n"
+                "    if t.startswith('STRUCT:') or t.startswith('check:'):\n"
+                "        from pyvc import props\n"
+                "        ex = props.run_extra(t.split(':')[1][:3], w, 'quick')\n"
+                "        out.append({'target': t, 'error': '; '.join(str(e) for e in ex.get('errors', [])), 'bad': [[o['name'], o['verdict']] for o in ex['obligations'] if o['verdict'] != 'discharged']})\n"
+                "        continue\n"
                 "    for con in [c for c in w.reg.facets[t] if not c.assumed]:\n"
                 "      for v in (con.all_variants() if hasattr(con, 'all_variants') else (con.variants or [None])):\n"
                 "        r = verify_function(w, con, v)\n"
@@ -95,8 +167,12 @@ def run(prop, jobs=8):
     with mp.Pool(min(jobs, len(ms))) as pool:
         results = pool.map(_run_one, ms, chunksize=1)
     ok = [r for r in results if r['status'] in ('killed', 'killed-other', 'passes')]
-    return {'mutants': len(ms), 'as_expected': len(ok),
-            'failures': [{'line': r['line'], 'status': r['status'], 'detail': r['detail']} for r in results if r not in ok],
+    # a mutant whose anchor no longer exists (the source under it was edited) cannot be evaluated: reported as stale,
+    # not as a failure of the machinery (on the unchanged tree every mutant applies: checked when the file is committed)
+    stale = [r for r in results if r['status'] == 'not-applied']
+    return {'mutants': len(ms), 'as_expected': len(ok), 'stale': [r['line'][:160] for r in stale],
+            'failures': [{'line': r['line'], 'status': r['status'], 'detail': r['detail']} for r in results
+                         if r not in ok and r not in stale],
             'results': [{'mutant': f"{r['file']}: {r['sed']}", 'expect': r['expect'], 'status': r['status'],
                          'detail': r['detail']} for r in results]}
 
